@@ -308,6 +308,10 @@ def gen_repo_world(t, family):
     return w
 
 
+class InjectedProcError(Exception):
+    """an application-defined exception raised by a processor (not derived from TextXError)"""
+
+
 class InnerPostponer:
     """Scope provider handed to ImportURI as its inner provider.  ImportURI asks it for the referencing model first
     (obj = the referencing object) and then once per loaded / builtin model (obj = that model's root)."""
@@ -438,17 +442,25 @@ class Sys:
         self.proc_fired = 0
         self.params_at = {}
 
+        self.proc_exc = "tx"  # what a failing processor raises: a TextXError, a ValueError, an application exception
+
+        def boom():
+            self.proc_fired += 1
+            if self.proc_exc == "tx":
+                raise TextXSemanticError("injected")
+            if self.proc_exc == "value":
+                raise ValueError("injected")
+            raise InjectedProcError("injected")
+
         def defproc(o):
             if self.fail_objproc_for is not None and \
                     (getattr(textx.get_model(o), "_tx_filename", None) or "<anon>") == self.fail_objproc_for:
-                self.proc_fired += 1
-                raise TextXSemanticError("injected")
+                boom()
 
         def mproc(m, mm):
             if self.fail_modelproc_for is not None and \
                     (getattr(m, "_tx_filename", None) or "<anon>") == self.fail_modelproc_for:
-                self.proc_fired += 1
-                raise TextXSemanticError("injected")
+                boom()
 
         self.mm.register_obj_processors({"Def": defproc})
         self.mm.register_model_processor(mproc)
@@ -897,12 +909,16 @@ def op_corrupt_cycle(ctx, prop, sysm, w, F, params, cache, famtag, global_repo, 
     sysm.opens.clear()
     sysm.sched.resolved.clear()
     sysm.sched.calls.clear()
+    if kind in ("objproc", "modelproc"):
+        sysm.proc_exc = t.pick(["tx", "tx", "value", "app"], "processor-raises")
     if kind == "objproc":
         sysm.fail_objproc_for = "<anon>" if (anon and X == F) else X
     elif kind == "modelproc":
         sysm.fail_modelproc_for = "<anon>" if (anon and X == F) else X
     err = None
     w.inner_suspended = kind == "never"
+    am2 = sysm.mm2._tx_model_repository.all_models if getattr(w, "mm2_repo", False) and sysm.mm2 is not None else None
+    snap2 = [(k, id(v)) for k, v in am2.filename_to_model.items()] if am2 is not None else None
     try:
         model = do_load(sysm, w, F, params, entry)
         outcome = "ok"
@@ -915,10 +931,13 @@ def op_corrupt_cycle(ctx, prop, sysm, w, F, params, cache, famtag, global_repo, 
         err = dump_error(e)
         etype = type(e)
     except Exception as e:
-        outcome = "crash"
+        # the processor's own exception reaching the caller is the expected failure of that load
+        own = kind in ("objproc", "modelproc") and sysm.proc_exc != "tx" and \
+            type(e) is (ValueError if sysm.proc_exc == "value" else InjectedProcError) and str(e) == "injected"
+        outcome = "error" if own else "crash"
         err = dump_error(e)
     ctx.ev("attempt", kind, role, outcome, err)
-    fclass = f"{kind}/{role}/{famtag}"
+    fclass = f"{kind}/{role}/{famtag}" + (f"/raises-{sysm.proc_exc}" if kind in ("objproc", "modelproc") and sysm.proc_exc != "tx" else "")
     if outcome == "ok":
         ctx.violate(prop if prop in ("C18", "C28") else "C18", "corrupted-load-succeeds", fclass,
                     f"{kind} in {os.path.relpath(X, ROOT)} ({role}) did not make the load of "
@@ -951,6 +970,21 @@ def op_corrupt_cycle(ctx, prop, sysm, w, F, params, cache, famtag, global_repo, 
                 for k, i in now:
                     if i not in before_ids:
                         del am.filename_to_model[k]
+        if am2 is not None:
+            # the second language's own global repository is a surviving repository too: what it cached before the
+            # attempt stays, nothing the attempt loaded remains
+            now2 = [(k, id(v)) for k, v in am2.filename_to_model.items()]
+            extra2 = [os.path.relpath(k, ROOT) for k, i in now2 if (k, i) not in snap2]
+            lost2 = [os.path.relpath(k, ROOT) for k, i in snap2 if (k, i) not in now2]
+            if extra2 or lost2:
+                ctx.violate("C18", "other-language-repository-clean", fclass,
+                            f"after the failed load the second language's repository has extra {extra2}, lost {lost2}")
+                for k, i in now2:
+                    if (k, i) not in snap2:
+                        del am2.filename_to_model[k]
+                for k, i in snap2:
+                    if (k, i) not in now2 and k in sysm.cache2:
+                        am2.filename_to_model[k] = sysm.cache2[k]
         for f, m in cache.items():
             rep = getattr(m, "_tx_model_repository", None)
             if rep is not None:
